@@ -225,7 +225,8 @@ impl<'r> Gen<'r> {
                 _ => {}
             }
             if self.want() {
-                if let Some(t) = self.pick(&vtabs) {
+                // the target namespace of STATUS_STRING_REF are the conversion tables (all three kinds)
+                if let Some(t) = self.pick(&tabs) {
                     cm.status_string_ref = Some(StatusStringRef::new(t));
                 }
             }
